@@ -260,7 +260,10 @@ def sweep(configs, bound):
 
 def enumerations(tier):
     b = 2 if tier == "thorough" else 1
-    return [("all-schedules-<=%d-deviations-3-small-configs" % b, sweep(SMALL, b), b == 1)]
+    parts = [("all-schedules-<=1-deviations-3-small-configs", sweep(SMALL, 1), True)]
+    if b == 2:
+        parts.append(("schedules-<=2-deviations-3-small-configs-second-deviation-at-every-3rd-step", sweep(SMALL, 2), False))
+    return parts
 
 
 def strategies(tier):
